@@ -13,19 +13,21 @@ RULE = ("kinds: gen (SampleSegregating incl. several samples at / below the size
         "recorded rng / heappop / argsort answers fed to the model (variant fixed=false|true chosen by replaying the canonical witness "
         "on /repo); each clause of the property evaluated directly on the real output.  Non-trivial: at least one unobserved experiment.")
 THEOREMS = {
-    "C13_sample_segregating_shape": "repaired logic (fixed=true), numpy permutation contract: every unobserved output plate holds one sample and at most max experiments",
-    "C13_sample_segregating_shape_refuted": "code as found (fixed=false): witness A,A,B,B,B with max 3 gives one plate '' of 5 experiments and 2 samples",
-    "C13_pairwise_single_sample": "Pairwise, choice contract: every unobserved output plate holds one sample",
-    "C13_sparse_cover_covers": "SparseCover: every sample and every treatment id of the screen occurs in an observed output row; unobserved rows all carry one plate label, observed rows another",
+    "C13_sample_segregating_shape": "repaired logic (fixed=true), every permutation answer a permutation of the sample's indices: every unobserved output plate holds one sample and at most max experiments",
+    "C13_sample_segregating_shape_refuted": "code as found (fixed=false): witness A,A,B,B,B with max 3 gives one plate '' of 5 > 3 experiments holding 2 samples",
+    "C13_pairwise_single_sample": "Pairwise, every accepted oracle answer: every unobserved output plate holds one sample",
+    "C13_sparse_cover_covers": "SparseCover: every sample and every treatment id of the screen occurs in an observed output row; observed rows are labelled initial_plate, all others one common label; experiments otherwise unchanged",
     "C13_combo_filter_exact": "combination filter keeps exactly (order and multiplicity included) the rows all of whose non-control treatments occur in a row without control",
     "C13_fixed_size_common": "FixedSize, choice contract: every unobserved output plate has exactly plate_size experiments",
     "C13_optimal_size_common": "OptimalSize, choice contract: every unobserved output plate has exactly optimal_size experiments",
+    "C13_size_smooth_counts": "which plates survive: a plate of size >= t keeps exactly t experiments, a smaller one none (so retained = t * #{plates of size >= t})",
     "C13_optimal_size_optimal": "s * #{plates of size >= s} <= optimal * #{plates of size >= optimal} for every s",
     "C13_nplate_minimum": "repaired logic (fixed=true): every sample left has at least min unobserved plates",
     "C13_nplate_minimum_refuted": "code as found (fixed=false): witness A:1, B:3, C:1 plates with minimum 2 leaves C with 1 plate",
-    "C13_merge_same_sample": "MergeMin / MergeTopBottom: output plates hold one sample each (only plates of one sample are merged)",
-    "C13_mergemin_stop": "MergeMin: in the output any two distinct unobserved plates of one sample together exceed min_size; if that already holds of the input nothing is merged",
-    "C13_topbottom_halves": "MergeTopBottom: one iteration takes the number of plates of the sample from n to ceil(n/2) and leaves other samples' plates alone",
+    "C13_merge_same_sample": "MergeMin / MergeTopBottom: output plates hold one sample each (only plates of one sample are merged); TopBottom with no iteration merges nothing",
+    "C13_mergemin_stop": "MergeMin, every accepted heappop answer: in the output any two distinct unobserved plates of one sample together exceed min_size; if that already holds of the input nothing is merged",
+    "C13_topbottom_halves": "MergeTopBottom: one iteration takes the number of plates of the sample from n to ceil(n/2), leaves other samples' plates alone, and breaks only at n <= 1",
+    "C13_topbottom_counts": "MergeTopBottom end to end: every sample's number of unobserved plates is halved (rounding up) n_iterations times",
 }
 ASSUMPTIONS = [
     "numpy permutation / choice contracts are hypotheses of the shape theorems (checked on every recorded answer by the harness); heappop's contract (returns a smallest item) and SparseCover's state-dependent choice contract are checked by the model itself (Err tag 93 / 94)",
